@@ -58,7 +58,8 @@ def plan():
             for bi, (blabel, _) in enumerate(B[cname]):
                 for sname in setters:
                     if sname in ("centroid", "center"):
-                        out.append((cname, bi, sname, "move", None))
+                        for variant in ("array", "list", "own-vertex-view", "own-centroid"):
+                            out.append((cname, bi, sname, "move", variant))
                         continue
                     for r in RATIOS:
                         out.append((cname, bi, sname, "ratio", r))
@@ -113,7 +114,9 @@ def setup(rec, tier):
                     old = getattr(s, name)
                 except Exception as e:
                     old = e
-            return {"old": old, "geom": geom_state(s), "fp": fpr.observe(s, light=True), "L": fpr.length_scale(s)}
+            tgt = a[0]
+            return {"old": old, "geom": geom_state(s), "fp": fpr.observe(s, light=True), "L": fpr.length_scale(s),
+                    "target": np.array(tgt, dtype=float, copy=True) if name in ("centroid", "center") else tgt}
         return f
 
     def post(name):
@@ -121,7 +124,7 @@ def setup(rec, tier):
             if tok is None:
                 return
             cname = type(s).__name__
-            v = a[0]
+            v = tok["target"]          # the value as it was when the call was made (the argument may alias the shape)
             info = dict(state["current"] or {}, target=v)
             g0, g1 = tok["geom"], geom_state(s)
             mech0 = f"{cname}.{name}.setter"
@@ -135,6 +138,17 @@ def setup(rec, tier):
                 ok = d.shape == g0["pts"].shape and np.all(np.abs(d - d[0]) <= 1e-9 * L) and g1.get("radius") == g0.get("radius") \
                     and g1.get("params") == g0.get("params")
                 rec.check("translation", bool(ok), mech0 + "/not-a-pure-translation", lambda: dict(info, before=g0["pts"], after=g1["pts"]))
+                # everything else must have moved with the shape: compare with a freshly built shape at the new place
+                try:
+                    fr = fpr.fresh(s)
+                    fa, fb = fpr.observe(s, light=True), fpr.observe(fr, light=True)
+                    skip = {"planar_moments_inertia"}
+                    diffs = fpr.compare({k: x for k, x in fa.items() if not k.startswith("minimal_bounding")},
+                                        {k: x for k, x in fb.items() if not k.startswith("minimal_bounding")}, L, 1e-9, fpr.is3d(s), skip=skip)
+                    rec.check("translation", not diffs, mech0 + "/observables-did-not-move-with-the-shape:" + ",".join(sorted({d[0] for d in diffs})[:3]),
+                              lambda: dict(info, diffs=diffs[:5]))
+                except Exception as e:
+                    rec.violation("translation", mech0 + f"/shape-unusable-after-move-{type(e).__name__}", lambda: dict(info, exc=repr(e)[:200]))
                 return
             if bad:
                 legit_zero = (cname, name) in SINGLE and name == "radius" and float(v) == 0.0
@@ -246,8 +260,13 @@ def _apply(rec, state, s, cname, blabel, sname, mode, val, rng):
             old = None
     if mode == "move":
         target = np.asarray(old, float) + np.array([0.7, -1.3, 2.1]) if old is not None else np.array([0.7, -1.3, 2.1])
-        if not fpr.is3d(s) and cname in ("Circle", "Ellipse"):
-            target = np.asarray(target, float)
+        if val == "list":
+            target = [float(x) for x in target]
+        elif val == "own-vertex-view" and hasattr(s, "vertices"):
+            with contracts.quiet():
+                target = s.vertices[len(s.vertices) // 2]        # a view into the shape's own array
+        elif val == "own-centroid" and old is not None:
+            target = old                                         # the very array the getter handed out (a no-op move)
     elif mode == "ratio":
         if old is None:
             rec.note(f"{cname}.{sname}: getter raises on base {blabel}; not judged")
@@ -292,7 +311,7 @@ def run_case(i, rng, rec, tier, state):
     for _ in range(6):
         sname = setters[int(rng.integers(len(setters)))]
         mode = "move" if sname in ("centroid", "center") else ("bad" if rng.random() < 0.15 else "ratio")
-        val = None if mode == "move" else (float(rng.choice(BAD)) if mode == "bad" else float(np.exp(rng.uniform(-2, 2))))
+        val = str(rng.choice(["array", "list", "own-vertex-view"])) if mode == "move" else (float(rng.choice(BAD)) if mode == "bad" else float(np.exp(rng.uniform(-2, 2))))
         chain.append((sname, mode, val))
         _apply(rec, state, s, cname, blabel, sname, mode, val, rng)
     rec.cls("chain:" + cname)
